@@ -161,8 +161,10 @@ class _PdRecorder:
     def __init__(self):
         self.cols = None
 
-    def DataFrame(self, d):
-        self.cols = d
+    def DataFrame(self, d, *a, copy=None, **kw):
+        # pandas builds a frame from a dict of arrays by copying them unless copy=False is requested (then columns may alias the inputs)
+        self.copy_flag = copy
+        self.cols = d if copy is False else {k: (v.copy() if isinstance(v, rnp.ndarray) else v) for k, v in d.items()}
         return self
 
     def set_index(self, k):
@@ -191,6 +193,12 @@ def ob_export(W, Ks, cross, single):
         finally:
             _g["pd"] = _old
         cols = rec.cols
+        # the export is a snapshot: editing the exported frame in place leaves the result untouched
+        probe = "Gxx"
+        before = R.el(getattr(r, probe), 0)
+        if isinstance(cols.get(probe), rnp.ndarray) and cols[probe].shape[0] == nf:
+            cols[probe][0] = cols[probe][0] * 2 + 1
+        W.goal("export-is-a-snapshot", W.eq(R.el(getattr(r, probe), 0), before))
         ok1d = all(isinstance(v, rnp.ndarray) and v.ndim == 1 and v.shape[0] == nf for v in cols.values())
         bad = [k for k, v in cols.items() if not (isinstance(v, rnp.ndarray) and v.ndim == 1 and v.shape[0] == nf)]
         W.goal("columns-1d", ok1d, bad=bad)
@@ -200,6 +208,13 @@ def ob_export(W, Ks, cross, single):
             df = r.to_dataframe()
             names = set(df.columns) | {"f"}
             W.goal("columns-1d", df.shape[0] == nf)
+            before = float(r.Gxx[0])
+            try:
+                df.loc[:, "Gxx"] *= 2.0
+                df.iloc[0, list(df.columns).index("Gxx")] += 1.0
+            except Exception:
+                pass
+            W.goal("export-is-a-snapshot", W.eq(float(r.Gxx[0]), before))
         except Exception as ex:
             W.goal("columns-1d", False, raised=repr(ex)[:200])
             names = set()
